@@ -1,4 +1,5 @@
 import PfModel.Lemmas.RunInfoCodec
+import PfModel.Lemmas.RunInfoAgree
 import PfModel.Props.C01
 /-!
 C04 — Results stored in a run folder reload exactly, from any process.
@@ -83,7 +84,8 @@ theorem C04_no_persist_witness :
 
     Missing for the unconditional statement: a proof that `agreeSlot` holds for the store `runMap` builds from every
     well-formed pipeline (that `init_store` on `createRunInfo …` finds for each function the shape, mask and storage class
-    under the keys `map_shapes` recorded).  The driver evaluates `agreeSlot` on every generated case. -/
+    under the keys `map_shapes` recorded).  The driver evaluates `agreeSlot` on every generated case.
+    (Round 2: that proof is `C04_agree`; `C04_reload` is this theorem without the hypothesis.  The name is kept.) -/
 theorem C04_reload_partial (parse : String → Option MSpec) (r : RunInfo) (backend : String → Option Backend)
     (store : List (String × Slot)) (hok : NamesOK r) (hn : (akeys store).Nodup)
     (hagree : ∀ os ∈ store, agreeSlot parse r backend os.1 os.2 = true) :
@@ -130,7 +132,7 @@ theorem C04_reload_runinfo (r : RunInfo) (backend : String → Option Backend) (
 /-- **Reload of a run (partial, with C01).** For a run of `runMap` — the model of `Pipeline.map` proved equal to the
     MapSpec denotation in `C01_map_eq_denotation` — with the `RunInfo` that `RunInfo.create` records and the backends
     `init_store` chooses: every value `load_outputs` returns from the folder is the value the run stored
-    (`MapResult.stored`).  Same missing part as `C04_reload_partial`. -/
+    (`MapResult.stored`).  Same missing part as `C04_reload_partial` (round 2: discharged in `C04_reload_run`). -/
 theorem C04_reload_run_partial (fs : List MFunc) (tupled intForm : List String) (inputs : List (String × Val))
     (user : List (String × IShape)) (storage : Storage) (version : String) (res : MapResult) (store : List (String × Slot))
     (hrun : runMapStore fs inputs (user.map fun kv => (kv.1, kv.2.dims)) = .ok (res, store))
@@ -162,6 +164,75 @@ theorem C04_reload_denotation (b : Backend) (fo : Folder) (f : MFunc) (shape : L
   rw [C04_store_roundtrip]
   exact PF.C01.C01_stored f shape mask args o h
 
+/-! ### round 2: `agreeSlot` discharged -/
+
+/-- **`init_store` finds what the run used.** For every pipeline and every request on which the run (`runMapStore`, i.e.
+    `runMap` with its store) succeeds: on the record `RunInfo.create` writes (`createRunInfo`: `map_shapes` keyed by
+    `output_name` — tuples, 1-tuples and every single name —, `_construct_internal_shapes`, the MapSpec strings), `init_store`
+    (`initEntry`: `MapSpec.from_string`, `name_mapping[mapspec.output_names]`, `shapes`/`shape_masks`/`storage_class`
+    under that key) finds for every slot of the run's store a file path if the function was called once, and otherwise a
+    storage array of the class the run used with exactly the shape and mask the run built its array with.
+    `Recorded` lists what is used beyond the run's success: `from_string ∘ str = id` on the pipeline's MapSpecs
+    (`C08_roundtrip`), MapSpec outputs = function outputs, unique output names (constructor checks), and a storage class
+    for every mapped function (else the run's own `init_store` raises).  That `map_shapes` records a shape for every function
+    with a MapSpec is proved from the success of `mapShapes` (`mapShapes_records`). -/
+theorem C04_agree (parse : String → Option MSpec) (fs : List MFunc) (tupled intForm : List String)
+    (inputs : List (String × Val)) (user : List (String × IShape)) (storage : Storage) (version : String) (res : MapResult)
+    (store : List (String × Slot)) (hrun : runMapStore fs inputs (user.map fun kv => (kv.1, kv.2.dims)) = .ok (res, store))
+    (H : Recorded parse fs storage) :
+    ∀ os ∈ store, agreeSlot parse (createRunInfo fs tupled intForm inputs user storage version res.shapes res.masks)
+      (backendFor fs storage) os.1 os.2 = true :=
+  agreeSlot_of_run parse fs tupled intForm inputs user storage version res store hrun H
+
+/-- the table that stands in for `MapSpec.from_string` inverts `str` as soon as no two MapSpecs of the pipeline print alike -/
+theorem C04_tableParse_print (fs : List MFunc)
+    (hinj : ∀ a ∈ fs.filterMap (·.mapspec), ∀ b ∈ fs.filterMap (·.mapspec), printSpec a = printSpec b → a = b) :
+    ∀ f ∈ fs, ∀ ms, f.mapspec = some ms → tableParse fs (printSpec ms) = some ms := by
+  intro f hf ms hms
+  have hmem : ms ∈ fs.filterMap (·.mapspec) := List.mem_filterMap.mpr ⟨f, hf, hms⟩
+  unfold tableParse
+  cases hfind : (fs.filterMap (·.mapspec)).find? (fun ms' => decide (printSpec ms' = printSpec ms)) with
+  | none =>
+    have := List.find?_eq_none.mp hfind ms hmem
+    simp at this
+  | some ms' =>
+    have h1 := List.mem_of_find?_eq_some hfind
+    have h2 := List.find?_some hfind
+    simp only [decide_eq_true_eq] at h2
+    rw [hinj ms' h1 ms hmem h2]
+
+/-- **Reload.** `C04_reload_partial` with its `agreeSlot` hypothesis proved: for a run of any pipeline (`Recorded`: see
+    `C04_agree`) under any storage configuration, `load_outputs(o)` on the folder the run leaves behind
+    (`persist_memory=True`) returns for every output exactly what the run's store held — `to_array()` of the run's own
+    storage array for a mapped output, the dumped value otherwise.  `parse` is `MapSpec.from_string`. -/
+theorem C04_reload (parse : String → Option MSpec) (fs : List MFunc) (tupled intForm : List String)
+    (inputs : List (String × Val)) (user : List (String × IShape)) (storage : Storage) (version : String) (res : MapResult)
+    (store : List (String × Slot)) (hrun : runMapStore fs inputs (user.map fun kv => (kv.1, kv.2.dims)) = .ok (res, store))
+    (hid : IdentsOK fs) (hin : (akeys inputs).Nodup) (hst : ∀ m, storage = .per m → ∀ kv ∈ m, KeyOK kv.1)
+    (hn : (akeys store).Nodup) (H : Recorded parse fs storage) :
+    ∀ os ∈ store, loadOutput parse
+      (folderOf true (createRunInfo fs tupled intForm inputs user storage version res.shapes res.masks) (backendFor fs storage) store) os.1
+      = some os.2.toVal :=
+  C04_reload_partial parse _ (backendFor fs storage) store
+    (C04_names_ok_of_identifiers fs tupled intForm inputs user storage version res.shapes res.masks hid hin hst) hn
+    (C04_agree parse fs tupled intForm inputs user storage version res store hrun H)
+
+/-- **Reload of a run (with C01).** `C04_reload_run_partial` without the `agreeSlot` hypothesis: the run is `runMap`, equal to
+    the MapSpec denotation `specMap` (C01), and every value `load_outputs` returns from its folder is the value the run
+    stored (`MapResult.stored`). -/
+theorem C04_reload_run (fs : List MFunc) (tupled intForm : List String) (inputs : List (String × Val))
+    (user : List (String × IShape)) (storage : Storage) (version : String) (res : MapResult) (store : List (String × Slot))
+    (hrun : runMapStore fs inputs (user.map fun kv => (kv.1, kv.2.dims)) = .ok (res, store))
+    (hid : IdentsOK fs) (hin : (akeys inputs).Nodup) (hst : ∀ m, storage = .per m → ∀ kv ∈ m, KeyOK kv.1)
+    (hn : (akeys store).Nodup) (H : Recorded (tableParse fs) fs storage) :
+    runMap fs inputs (user.map fun kv => (kv.1, kv.2.dims)) = .ok res ∧
+    specMap fs inputs (user.map fun kv => (kv.1, kv.2.dims)) = .ok res ∧
+    ∀ ov ∈ res.stored, loadOutput (tableParse fs)
+      (folderOf true (createRunInfo fs tupled intForm inputs user storage version res.shapes res.masks) (backendFor fs storage) store) ov.1
+      = some ov.2 :=
+  C04_reload_run_partial fs tupled intForm inputs user storage version res store hrun hid hin hst hn
+    (C04_agree (tableParse fs) fs tupled intForm inputs user storage version res store hrun H)
+
 /-! ### non-vacuity -/
 
 def fsEx : List MFunc := [
@@ -182,6 +253,20 @@ example : (match runMapStore fsEx inEx [] with
     (store.all fun (o, _) => (loadOutput (tableParse fsEx) (folderOf true r (backendFor fsEx stEx) store) o).isSome) &&
     (akeys store).length == (akeys store).eraseDups.length
   | _ => false) = true := by decide
+
+/-- `Recorded` holds for the concrete pipeline above (tuple output, per-output storage dictionary with a `""` default), so
+    `C04_agree`, `C04_reload` and `C04_reload_run` apply to it; its run succeeds and fills three slots (previous example) -/
+example : Recorded (tableParse fsEx) fsEx stEx := by
+  refine ⟨?_, ?_, by decide, ?_⟩
+  · apply C04_tableParse_print
+    decide
+  · intro f hf ms hms
+    simp only [fsEx, List.mem_cons, List.not_mem_nil, or_false] at hf
+    rcases hf with e | e <;> subst e <;> simp at hms <;> subst hms <;> rfl
+  · intro f hf ms hms _
+    simp only [fsEx, List.mem_cons, List.not_mem_nil, or_false] at hf
+    rcases hf with e | e <;> subst e <;> simp at hms
+    decide
 
 example : KeyOK (.many ["y"]) ∧ KeyOK (.many ["y", "z"]) ∧ KeyOK (.one "") ∧ ¬ KeyOK (.one "a,b") := by
   refine ⟨⟨by decide, ?_⟩, ⟨by decide, ?_⟩, ?_, ?_⟩
